@@ -506,21 +506,15 @@ func (v *validator) function(where string, f *ir.Function, ep *ir.EntryPoint) {
 			continue
 		}
 		rec := FromIR(f.ExpressionTypes[i])
-		if rec.IsZero() {
-			ctx := Issue{Expr: i, Value: -1}
-			if inf, err := ty.Type(ir.ExpressionHandle(i)); err == nil {
-				ctx.Inferred = inf
-			}
-			v.addX(ctx, RuleTypingMissing, ew, "%s has no recorded type", kindName(kind))
-			continue
-		}
 		if rec.Handle != nil && int(*rec.Handle) >= len(m.Types) {
 			v.add(RuleHandleRange, ew, "recorded type handle %d out of range (%d types)", *rec.Handle, len(m.Types))
 			continue
 		}
-		recIn := InnerOf(m, rec)
-		if innerAbstract(recIn) || (rec.Handle != nil && isAbstractDeep(m, *rec.Handle, 0)) {
-			v.addX(Issue{Expr: i, Value: -1, Recorded: rec}, RuleAbstractExprTy, ew, "%s has recorded abstract type %s", kindName(kind), ResString(m, rec))
+		if !rec.IsZero() {
+			recIn := InnerOf(m, rec)
+			if innerAbstract(recIn) || (rec.Handle != nil && isAbstractDeep(m, *rec.Handle, 0)) {
+				v.addX(Issue{Expr: i, Value: -1, Recorded: rec}, RuleAbstractExprTy, ew, "%s has recorded abstract type %s", kindName(kind), ResString(m, rec))
+			}
 		}
 		inf, err := ty.Type(ir.ExpressionHandle(i))
 		if err != nil {
@@ -528,7 +522,15 @@ func (v *validator) function(where string, f *ir.Function, ep *ir.EntryPoint) {
 				v.st.TypifyUnsupported++
 				continue
 			}
-			v.addX(Issue{Expr: i, Value: -1, Recorded: rec}, RuleTypingError, ew, "%s cannot be typed: %v (recorded %s)", kindName(kind), err, ResString(m, rec))
+			recS := "none"
+			if !rec.IsZero() {
+				recS = ResString(m, rec)
+			}
+			v.addX(Issue{Expr: i, Value: -1, Recorded: rec}, RuleTypingError, ew, "%s cannot be typed: %v (recorded type: %s)", kindString(kind), err, recS)
+			continue
+		}
+		if rec.IsZero() {
+			v.addX(Issue{Expr: i, Value: -1, Inferred: inf}, RuleTypingMissing, ew, "%s has no recorded type (inferred %s)", kindName(kind), ResString(m, inf))
 			continue
 		}
 		if !ResEqual(m, rec, inf) {
